@@ -794,3 +794,31 @@ package larking
 //@   count closes `c.Close(`
 //@   witness verifWitnessWebText
 //@   ensures [text-encoder-closed C06] w.typ == "application/grpc-web-text" && (old(w.wroteHeader) || old(w.wroteResp)) ==> closes == 1
+
+// ---------------------------------------------------------------------------
+// Field paths and parameter application (C09: a query key or capture may walk
+// through message fields only; lists and maps cannot be walked with
+// Mutable(fd).Message(), protobuf-go panics with "type mismatch").
+//@ spec SingularMsg(fd) = fdMsg(fd) != 0 && !fdIsList(fd) && !fdIsMap(fd)
+//@ spec FieldPathWf(fds) = (forall y :: {at(fds, y)} off(fds) <= y && y < off(fds) + len(fds) - 1 ==> SingularMsg(at(fds, y)))
+//@      && (forall y :: {at(fds, y)} off(fds) <= y && y < off(fds) + len(fds) ==> at(fds, y) != nil)
+
+//@ func fieldPath serves C09 C03
+//@   witness verifWitnessQueryPaths
+//@   requires fieldDescs != nil
+//@   modifies E$protoreflect.FieldDescriptor
+//@   ensures [walkable C09] FieldPathWf(result)
+//@   loop 1 invariant -1 <= rangeindex && rangeindex < len(names) && len(fds) == len(names) && fieldDescs != nil
+//@   loop 1 invariant forall y :: {at(fds, y)} off(fds) <= y && y <= off(fds) + rangeindex && y < off(fds) + len(fds) - 1 ==> SingularMsg(at(fds, y))
+//@   loop 1 invariant forall y :: {at(fds, y)} off(fds) <= y && y <= off(fds) + rangeindex ==> at(fds, y) != nil
+//@   loop 1 decreases len(names) - rangeindex
+
+//@ spec ParamsWf(ps) = forall x :: {at(ps, x).fds} off(ps) <= x && x < off(ps) + len(ps) ==> FieldPathWf(at(ps, x).fds)
+//@ func (params).set serves C09 C07
+//@   returns (err)
+//@   requires m != nil && ParamsWf(ps)
+//@   modifies G$pb.
+//@   loop 1 invariant -1 <= rangeindex && rangeindex < len(ps)
+//@   loop 1 decreases len(ps) - rangeindex
+//@   loop 2 invariant -1 <= rangeindex#2 && rangeindex#2 < len(p.fds) && 0 <= rangeindex && rangeindex < len(ps) && same(p.fds, ps[rangeindex].fds) && cur != nil
+//@   loop 2 decreases len(p.fds) - rangeindex#2
